@@ -1073,6 +1073,10 @@ def obligations(tier):
                  bounds="2 client streams (HEADERS DATA TRAILERS / HEADERS DATA+END), responses (HEADERS DATA TRAILERS / HEADERS DATA+END); every interleaving of "
                         "client frames and server response frames; <= 1 cut of the byte stream from a 5-entry menu at any frame of either direction",
                  encoded=S, must_reach=["end", "answered", "cut", "request-hook"], parallel_depth=4),
+            Symx("h2-schedule-3", lambda X: h_schedule(X, Cfg(shapes=["H", "H", "H"], resp=["H", "H", "H"], splits=0, mcs=True)),
+                 bounds="3 bodiless client streams, every interleaving of requests and answers, server SETTINGS with or without MAX_CONCURRENT_STREAMS=1 "
+                        "(two streams wait for capacity at the same time)",
+                 encoded=S, must_reach=["end", "answered", "mcs", "limited-open"]),
             Symx("h2-schedule-faults", lambda X: h_schedule(X, Cfg(shapes=["HD", "HD"], resp=["HD", "H"], splits=0, faults=1, mcs=True)),
                  bounds="2 client streams (HEADERS DATA+END each), every interleaving; server SETTINGS with or without MAX_CONCURRENT_STREAMS=1; <= 1 RST_STREAM by the client "
                         "or the server on any open stream at any point",
